@@ -17,6 +17,8 @@ CHECKS['C12'] = dict(text='Bounded symbolic execution (z3) of the MIR of expand_
              note='Passes are driven directly; the glob matcher itself is outside (stub). Every brace/range/tilde leaf is validated against the native function.', design='6/C12')
 CHECKS['C13'] = dict(text='Bounded symbolic execution (z3) of the MIR of CommandLine::from_line end to end with the three expansion channels delivering a symbolic text of 1..3 (thorough 4) characters: value of $X / ${X} (env stub), stdout of $(..) / backquotes (capture stub), a file name matched by `*` (glob stub); unquoted and double-quoted, sole/first/last argument; oracle: one command, no background, no redirection, neighbours unchanged, the text is exactly one argument.',
              note='Produced characters exclude those that legitimately trigger later expansions (* ? [ ] { } ~ $ ` \\ quotes). Every leaf is validated / every violation replayed with the native from_line (helper program prints the output bytes, scratch directory holds the file). Known finding (5 effect kinds): unquoted results are re-read as syntax.', design='6/C13')
+CHECKS['C16'] = dict(text='Bounded symbolic execution (z3) of the MIR of scripting::expand_args (parse_line, expand_args_in_tokens, tokens_to_line, wrap_sep_string) followed by line_to_cmds + from_line, on C01\'s line shapes (three quoting styles, <= 2 arguments, <= 2 / thorough 3 symbolic characters, four positions): the plan of the re-rendered line must equal the plan of the line itself; trim_multiline_prompts must be the identity. Violations are minimised natively and replayed through the real binary as `cicada -c LINE` versus a script file containing LINE.',
+             note='Stubs as C01, answering identically in both runs. Known finding: the unquoted-escaped style is not re-rendered faithfully (one key for the whole style).', design='6/C16')
 NA = {}
 ALL = ['C%02d' % i for i in range(1, 21)]
 m = dict(version=1, setup_cmd='./setup.sh',
